@@ -38,3 +38,14 @@ Theorem C09_stage_order_is_the_sources :
   Gen.Pipeline.ksrsigner_stages = (flat_map marker (map st_stage (steps some_env)) ++ ["return True"%string])%list.
 Proof. exact gen_stage_order. Qed.
 Print Assumptions C09_stage_order_is_the_sources.
+
+(* which key is a KSK, a ZSK, revoked: single bits of the flags (a revoked KSK, flags 385, is a KSK) *)
+Theorem C09_gen_key_kinds :
+  Gen.Skeleton.is_zsk_key_shape =
+    ["return not is_sep_key(key)"%string] /\
+  Gen.Skeleton.is_sep_key_shape =
+    ["return bool(key.flags & FlagsDNSKEY.SEP.value)"%string] /\
+  Gen.Skeleton.is_revoked_key_shape =
+    ["return bool(key.flags & FlagsDNSKEY.REVOKE.value)"%string].
+Proof. exact gen_key_kind_shapes. Qed.
+Print Assumptions C09_gen_key_kinds.
